@@ -301,7 +301,10 @@ def run_check(spec, argv):
     t0 = time.time()
     prog, mir_info = engine.load_program()
     rp = Replay()
-    ncases, mism = spec.conformance(prog, rp, seed, tier)
+    try:
+        ncases, mism = spec.conformance(prog, rp, seed, tier)
+    except Unsupported as e:
+        ncases, mism = 0, [{'unsupported': str(e)[:500]}]
     if mism:
         print('INCONCLUSIVE property=%s conformance mismatch between MIRSE and native code: %s' % (
             PROP, json.dumps(mism[:3], default=str)))
